@@ -4,10 +4,13 @@
 #include "low.h"
 
 /* ghost indices: left unconstrained by every harness, so a clause stated at vf_gk holds for every index */
-extern size_t vf_gk, vf_gj;
+extern size_t vf_gk, vf_gj, vf_gc;
 
 /* container sizes are capped so that element addresses stay inside CBMC's 55-bit offsets; 10^5 is far above
  * anything the format can carry (65535 frames, 255 points, 255 parameters) */
+/* ghost state of the allocation model (not library state): written by every new / new[] */
+#define VF_GHOST_ALLOC vf_trk_ptr, vf_trk_kind, vf_max_alloc
+
 #define VF_MAXN ((size_t)100000)
 #define VF_MAXSTR ((size_t)4096)
 
@@ -15,5 +18,15 @@ extern size_t vf_gk, vf_gj;
 #define VF_U8(p, o) ((unsigned)(unsigned char)(p)[(o)])
 #define VF_U16(p, o) (VF_U8(p, o) | (VF_U8(p, (o) + 1) << 8))
 #define VF_U32(p, o) (VF_U8(p, o) | (VF_U8(p, (o) + 1) << 8) | (VF_U8(p, (o) + 2) << 16) | (VF_U8(p, (o) + 3) << 24))
+
+
+/* object representation of a float, for bit-exact comparisons (NaN payloads, -0.0) */
+static inline unsigned vf_bits_of(float f)
+{
+  union { float f; unsigned u; } c;
+  c.f = f;
+  return c.u;
+}
+#define VF_FBITS(lv) vf_bits_of(lv)
 
 #endif
